@@ -17,8 +17,9 @@ from vt.ref import tlv, xorenc
 LEVEL = "model_checking"
 _G = {}
 # A call that exceeds its first budget is not yet a hang: some inputs are legitimately slow (a run of 0xFF bytes makes ~1000
-# end-of-stub candidates, each scanned over 1024 offsets: ~35 s). It is re-run once with a budget 40x larger; only if it
-# exceeds that too it is reported. After the first confirmed hang later time-outs are reported at once (bounded total time).
+# end-of-stub candidates, each scanned over 1024 offsets: ~35 s). It is re-run once with a budget 40x larger (at most 400 s,
+# ten times the slowest legitimate call seen); only if it exceeds that too it is reported. After the first confirmed hang
+# later time-outs are reported at once (bounded total time).
 _CONFIRMED = mp.Value("i", 0)
 
 
@@ -26,7 +27,7 @@ def patient(fn, *a, seconds=30, **kw):
     o = core.guarded(fn, *a, seconds=seconds, **kw)
     if o[0] != "timeout" or _CONFIRMED.value:
         return o
-    o = core.guarded(fn, *a, seconds=seconds * 40, **kw)
+    o = core.guarded(fn, *a, seconds=min(seconds * 40, 400), **kw)
     if o[0] == "timeout":
         with _CONFIRMED.get_lock():
             _CONFIRMED.value += 1
